@@ -420,6 +420,7 @@ func runC03(c *Ctx) {
 		touches := false
 		constructs := false // the function builds the poller itself: its own waker registration must be discounted
 		pollerT := p.Named("internal", "poller")
+		wakerF := p.TryField("internal", "poller", "waker")
 		eachInstr(fn, func(in ssa.Instruction) {
 			if a, ok := in.(*ssa.Alloc); ok {
 				if pt, ok := a.Type().(*types.Pointer); ok && types.Identical(pt.Elem(), pollerT) {
@@ -464,6 +465,7 @@ func runC03(c *Ctx) {
 			var delta int64
 			var evs []evStore
 			appends, handlerCalls, wakerRegs := 0, 0, 0
+			wakerRegsOK := 0 // successful waker registrations made outside the constructor
 			instrs := path.Instrs()
 			for _, in := range instrs {
 				if d, ok := atomicAddDelta(in, pending); ok {
@@ -506,6 +508,19 @@ func runC03(c *Ctx) {
 					}
 					if isCallTo(in, setReadIface, setReadM) && constructs {
 						wakerRegs++
+					}
+					// the waker registered in a helper of the constructor (registerWaker): the slot comes from the waker field
+					if isCallTo(in, setReadIface, setReadM) && !constructs && wakerF != nil {
+						args := in.(ssa.CallInstruction).Common().Args
+						fromWaker := false
+						eachInstr(fn, func(x ssa.Instruction) {
+							if v, ok := x.(ssa.Value); ok && loadedField(v) == wakerF && dependsOnLoose(args[len(args)-1], v) {
+								fromWaker = true
+							}
+						})
+						if fromWaker && path.nilness(in.(ssa.Value)) == "nil" {
+							wakerRegsOK++
+						}
 					}
 				}
 			}
@@ -577,6 +592,7 @@ func runC03(c *Ctx) {
 				want -= int64(nClear)
 				want += int64(appends)
 				want -= int64(handlerCalls)
+				want -= int64(wakerRegsOK) // the waker's own registration is not an operation in flight
 			}
 			construct := fmt.Sprintf("path(set=%d,clear=%d,restore=%d,append=%d,run=%d,err=%s)", nSet, nClear, nRestore, appends, handlerCalls, errNil)
 			pos := fn.Pos()
@@ -712,16 +728,90 @@ func runC03(c *Ctx) {
 		}
 		nOps := 0
 		seenKind := map[string]bool{}
-		for _, fn := range internalFuncs {
-			for _, call := range allCalls(fn) {
-				kind := prims[call.Call.StaticCallee()]
-				if kind == "" || prims[fn] != "" {
-					continue
+		// uses of a primitive: a call, or its method value taken (returned by a helper that chooses the operation)
+		type primUse struct {
+			in   ssa.Instruction
+			kind string
+		}
+		usesIn := func(fn *ssa.Function) []primUse {
+			var out []primUse
+			eachInstr(fn, func(in ssa.Instruction) {
+				switch x := in.(type) {
+				case *ssa.Call:
+					if k := prims[x.Call.StaticCallee()]; k != "" {
+						out = append(out, primUse{in, k})
+					}
+				case *ssa.MakeClosure:
+					if bf, ok := x.Fn.(*ssa.Function); ok && strings.Contains(bf.Synthetic, "bound method wrapper") {
+						for pf, k := range prims {
+							if pf.Object() != nil && bf.Object() == pf.Object() {
+								out = append(out, primUse{in, k})
+							}
+						}
+					}
 				}
+			})
+			return out
+		}
+		// maskIsZero: v, compared with 0 by a guard of the use, is the interest mask as required: for a removal the mask
+		// as it is now (loaded after the last store that reaches `at`), for an addition the mask before this function
+		// changed it (loaded before any store); or a parameter bound to such a value at every call site
+		var maskIsZero func(fn *ssa.Function, v ssa.Value, at ssa.Instruction, kind string, depth int) bool
+		maskIsZero = func(fn *ssa.Function, v ssa.Value, at ssa.Instruction, kind string, depth int) bool {
+			v = stripConv(v)
+			if prm, isPrm := v.(*ssa.Parameter); isPrm && depth < 2 {
+				sites := p.callers(fn)
+				if len(sites) == 0 {
+					return false
+				}
+				for i, q := range fn.Params {
+					if q != prm {
+						continue
+					}
+					for _, site := range sites {
+						if !maskIsZero(site.Parent(), site.Common().Args[i], site.(ssa.Instruction), kind, depth+1) {
+							return false
+						}
+					}
+					return true
+				}
+				return false
+			}
+			ld, isLd := v.(*ssa.UnOp)
+			if !isLd || ld.Op != token.MUL {
+				return false
+			}
+			if fv, _ := fieldAddrOf(ld.X); fv != eventsF {
+				return false
+			}
+			okL := true
+			eachInstr(fn, func(xi ssa.Instruction) {
+				st, isSt := xi.(*ssa.Store)
+				if !isSt {
+					return
+				}
+				if fv, _ := fieldAddrOf(st.Addr); fv != eventsF {
+					return
+				}
+				if kind == "del" && reachesFrom(ld, st) && reachesFrom(st, at) {
+					okL = false
+				}
+				if kind == "add" && reachesFrom(st, ld) {
+					okL = false
+				}
+			})
+			return okL
+		}
+		for _, fn := range internalFuncs {
+			if prims[fn] != "" {
+				continue
+			}
+			for _, use := range usesIn(fn) {
+				kind := use.kind
 				nOps++
 				seenKind[kind] = true
 				good := false
-				for _, l := range guardsOf(call.Block()) {
+				for _, l := range guardsOf(use.in.Block()) {
 					op, x, y, ok := l.cmp()
 					if !ok || op != token.EQL {
 						continue
@@ -729,39 +819,14 @@ func runC03(c *Ctx) {
 					if isConstInt(x, 0) {
 						x, y = y, x
 					}
-					ld, isLd := stripConv(x).(*ssa.UnOp)
-					if !isConstInt(y, 0) || !isLd || ld.Op != token.MUL {
-						continue
-					}
-					if fv, _ := fieldAddrOf(ld.X); fv != eventsF {
-						continue
-					}
-					// del: the mask as it is now (no store between the load and the call); add: the mask as it was
-					// before this function changed it (no store before the load)
-					okL := true
-					eachInstr(fn, func(xi ssa.Instruction) {
-						st, isSt := xi.(*ssa.Store)
-						if !isSt {
-							return
-						}
-						if fv, _ := fieldAddrOf(st.Addr); fv != eventsF {
-							return
-						}
-						if kind == "del" && reachesFrom(ld, st) && reachesFrom(st, call) {
-							okL = false
-						}
-						if kind == "add" && reachesFrom(st, ld) {
-							okL = false
-						}
-					})
-					if okL {
+					if isConstInt(y, 0) && maskIsZero(fn, x, use.in, kind, 0) {
 						good = true
 					}
 				}
 				if kind == "del" {
-					c.check(good, fn, "kernel removal", call.Pos(), "EPOLL_CTL_DEL only when Slot.Events is empty", "the descriptor is removed from the epoll set although Slot.Events may still record an interest (the removal is not guarded by Slot.Events == 0 read after the update): the operation parked for the other direction never completes and its next registration fails with ENOENT")
+					c.check(good, fn, "kernel removal", use.in.Pos(), "EPOLL_CTL_DEL only when Slot.Events is empty", "the descriptor is removed from the epoll set although Slot.Events may still record an interest (the removal is not guarded by Slot.Events == 0 read after the update): the operation parked for the other direction never completes and its next registration fails with ENOENT")
 				} else {
-					c.check(good, fn, "kernel addition", call.Pos(), "EPOLL_CTL_ADD only when Slot.Events was empty", "the descriptor is added to the epoll set although it may already be in it (the addition is not guarded by the previous Slot.Events == 0): the registration fails with EEXIST while an operation of the other direction is parked")
+					c.check(good, fn, "kernel addition", use.in.Pos(), "EPOLL_CTL_ADD only when Slot.Events was empty", "the descriptor is added to the epoll set although it may already be in it (the addition is not guarded by the previous Slot.Events == 0): the registration fails with EEXIST while an operation of the other direction is parked")
 				}
 			}
 		}
